@@ -70,6 +70,8 @@ def ev(e, env):
     op = e.op
     if op == 'const':
         return int(e.val)
+    if op == 'sig':
+        raise KeyError(c)                      # a signal the environment does not give a value to
     if op == 'slice':
         v = ev(e.args[0], env)
         return (v >> e.args[1]) & ((1 << (e.args[2] - e.args[1])) - 1)
